@@ -47,6 +47,9 @@ def go_trim(v):
         v = w
 
 
+# the model splits start line, CSeq and Via sent-protocol like strings.Fields (Unicode white space too): generate such input
+USP_FIELDS = True
+
 # byte sequences that LOOK like a Unicode space but are not one for strings.TrimSpace: lone
 # continuation bytes, a lone start byte, truncated sequences, U+200B (zero width space), an overlong form
 NOT_USPACE = [b"\xa0", b"\x85", b"\xc2", b"\xe2\x80", b"\xe2\x80\x8b", b"\xe1\x9a", b"\xc0\xa0", b"\xe3\x80\x81"]
@@ -1051,7 +1054,15 @@ def respell_relayout(rng, data):
 def mutate(rng, data):
     """byte-level damage of a valid message"""
     b = bytearray(data)
-    k = rng.randrange(8)
+    k = rng.randrange(10 if USP_FIELDS else 8)
+    if k >= 8:
+        # a blank of the start line / a CSeq / a Via sent-protocol replaced by a Unicode space or a look-alike: strings.Fields
+        # splits at the former only
+        spots = [m.start() for m in __import__("re").finditer(rb" ", bytes(b[:400]))]
+        if spots:
+            i = rng.choice(spots)
+            return bytes(b[:i]) + rng.choice(USPACE + NOT_USPACE) + bytes(b[i + 1:])
+        return bytes(b)
     if k == 0 and b:
         return bytes(b[:rng.randrange(len(b))])                           # truncation
     if k == 1 and b:
